@@ -56,16 +56,16 @@ def projection(spec, supplied, parsed, where="value"):
     """model-free: every plain member the caller supplied must come back unchanged; returns a message or None"""
     k = spec[0]
     if k in ("int", "varint", "zigzag", "bytes", "gbytes", "pstr", "pascal", "cstr", "gstr", "flag", "float", "bits", "bit",
-             "nibble", "octet", "mapping", "oneof", "noneof", "exprsym", "expradd", "exprvalid", "bint"):
+             "nibble", "octet", "bittail", "mapping", "oneof", "noneof", "exprsym", "expradd", "exprvalid", "bint"):
         if k == "flag":
             return None if parsed is bool(supplied) else "%s: built %r, parsed %r" % (where, supplied, parsed)
         if not feq(supplied, parsed) or (isinstance(supplied, str) and not isinstance(parsed, str)):
             return "%s: built %r, parsed %r" % (where, supplied, parsed)
         return None
     if k == "enum":
-        table = dict((l, v) for l, v in spec[2])
-        inv = dict((v, l) for l, v in spec[2])
-        want = supplied if isinstance(supplied, str) else inv.get(supplied, supplied)
+        table = dict((l, v) for l, v in G.enum_table(spec))
+        inv = dict((v, l) for l, v in G.enum_table(spec))       # aliases: the last label declared for a value is reported
+        want = inv[table[supplied]] if isinstance(supplied, str) and supplied in table else inv.get(supplied, supplied)
         if not (parsed == want and isinstance(parsed, type(want))):
             return "%s: built %r, parsed %r (expected %r)" % (where, supplied, parsed, want)
         return None
